@@ -16,15 +16,16 @@ def flow_cfg(n_htlcs=1, store='free_absent', amounts=None, **kw):
     cfg.update(kw)
     return cfg, []
 
-def standard_configs(tier, crash=True, faults=0, write_faults=0, fault_methods=(), two_sets=('paid', 'failed', 'error:210')):
+def standard_configs(tier, crash=True, faults=0, write_faults=0, fault_methods=(), two_sets=('paid', 'failed', 'error:210'), write_faults_and_crash=True):
     """[(name, cfg, pc, kwargs)]"""
     out = []
     for store in ('free_absent', 'pending', 'succeeded'):
         cfg, pc = flow_cfg(1, store)
         out.append(('1 htlc, stored=%s' % store, cfg, pc, {}))
     # restart with two parts of the interrupted attempt still on the node, in any states, failing with different codes
-    cfg, pc = flow_cfg(1, 'pending', pending_parts=2, wait_fail_codes=(203, 204), max_total_parts=3, pay_outcomes=('complete',), parts_can_fail=True)
-    out.append(('1 htlc, stored=pending[2 earlier parts]', cfg, pc, {}))
+    cfg, pc = flow_cfg(1, 'pending', pending_parts=2, old_parts_in_groups=True, wait_fail_codes=(203, 204), max_total_parts=3,
+                       pay_outcomes=('complete',), parts_can_fail=True)
+    out.append(('1 htlc, stored=pending[2 earlier parts, one per group]', cfg, pc, {}))
     # restart with a replayed HTLC that now trips a policy check (blocks were mined / policy changed): still held
     cfg, pc = flow_cfg(1, 'pending')
     cfg['htlcs'][0].cltv_rel = 10
@@ -49,6 +50,12 @@ def standard_configs(tier, crash=True, faults=0, write_faults=0, fault_methods=(
     if crash:
         cfg, pc = flow_cfg(1, 'free_absent', crash=1, pay_outcomes=('complete', 'failed'))
         out.append(('1 htlc, 1 crash', cfg, pc, {}))
+    if crash and write_faults_and_crash:
+        # a datastore write that is rejected (or applied but reported failed) and, in the same run, a crash; the replayed
+        # HTLC may by then have too little relative expiry left
+        cfg, pc = flow_cfg(1, 'free_absent', crash=1, write_faults=1, crash_shrinks_expiry=True, pay_outcomes=('complete', 'failed'),
+                           parts_can_fail=False)
+        out.append(('1 htlc, 1 write fault + 1 crash', cfg, pc, {}))
     if faults or write_faults:
         cfg, pc = flow_cfg(1, 'free_absent', faults=faults, write_faults=write_faults, fault_methods=fault_methods,
                            fault_codes=((-1, 'Rpc'), (None, 'General')), pay_outcomes=('complete', 'pending', 'failed'))
